@@ -88,6 +88,37 @@ def _agreement(ctx, n):
                      "directly (implementation only)" % pairs)
 
 
+def _agreement_float(ctx, n):
+    """The same clause for `As` to float64: on every common raw value f64 (nearest float64 of the exact decimal text) and
+    f128 (128-bit quotient, then nearest float64) must return the same bits.  Double rounding cannot separate them: a
+    non-zero distance of raw/10^D (|raw| < 2^63, D <= 16) from a 53-bit rounding midpoint is at least 2^-108 relative,
+    far above the 2^-128 of the intermediate.  Implementation only, no model involved.  (`From` of a float is NOT
+    compared: there the two types legitimately differ by the last unit, e.g. 0.29 at D2 is raw 28 in f64 and 29 in
+    f128 - both inside the bound of the property.)"""
+    if "harness" not in ctx.harness_bin or ctx.replay:
+        return
+    lines = [l for l in ctx.gen("fxfloatm", ctx.seed * 7919 + 11, n) if l.startswith("f64 ") and l.split(" ")[2] in ("asf64", "asf64n")]
+    twins = ["f128" + l[3:] for l in lines]
+    o64 = ctx.run_impl("fxfloatm", lines, timeout=120)
+    o128 = ctx.run_impl("fxfloatm", twins, timeout=120)
+    if o64 is None or o128 is None:
+        return
+    bad = 0
+    for l, t, a, b in zip(lines, twins, o64, o128):
+        if a.startswith(("crash", "skipped-after-crash", "hang")) or b.startswith(("crash", "skipped-after-crash", "hang")):
+            continue
+        if a != b and bad < 2:
+            bad += 1
+            rep = {"property": ctx.id, "kind": "impl-oracle", "area": "fxfloatm", "harness": "harness", "ops": [l, t],
+                   "impl_outputs": [a, b], "concrete_failing_input": True,
+                   "note": "f64.As[float64] and f128.As[float64] disagree on a raw value both types represent"}
+            ctx.violations.append({"kind": "impl-oracle", "concrete": True, "replay": ctx._write_replay(rep),
+                                   "what": "f64/f128 As[float64] disagree on `%s`: %s vs %s" % (l, a, b)})
+    ctx.extra["f64_f128_float_twin_pairs"] = len(lines)
+    ctx.rules.append("twin agreement (float): %d raw values converted by f64.As[float64] and f128.As[float64], bits compared "
+                     "directly (implementation only)" % len(lines))
+
+
 def _tag(line, out):
     w = line.split(" ")
     if len(w) < 3:
@@ -122,10 +153,14 @@ def run(ctx):
         "product truncates into int64, no NaN/Inf): the model answers impl-defined elsewhere and the generator of "
         "fxfloatm stays inside the domain; f128.From is defined everywhere (NaN panics in math/big, +-Inf give 0, "
         "out-of-range values saturate in num.Int128FromBigInt) and is generated without restriction",
-        "float From/As, float32 kinds: modelled (round32 = a second nearest-even rounding to 24 bits with the float32 "
-        "exponent range) and compared bit for bit in fxfloatm, but no Lean bound is proved for them; the literal bound "
-        "is judged end to end by the exact-rational oracle of area fxfloat, where the relative part is read as 2^-23 "
-        "(a float32 has 24 significant bits; `one part in 2^52` can only refer to float64)",
+        "float From/As, float32 kinds: modelled (round32 = nearest-even rounding to 24 bits with the float32 exponent "
+        "range; f64.From forms the product with float32(mult), which is inexact from D11 on) and compared bit for bit in "
+        "fxfloatm; bounds proved with the relative part read as 2^-23 (a float32 has 24 significant bits; `one part in "
+        "2^52` can only refer to float64): f64_from_float32_sharp/_bound (needs float32_multiplier: |float32(mult) - mult| "
+        "<= mult*15/2^29 in every configuration of the regenerated table), f64_as_float32_bound (2^-24), "
+        "f128_as_float32_bound (2^-24 + 2^-52), f128_from_float32_bound (< 1 unit), "
+        "float32_conversions_within_property_bound; the same reading is judged end to end by the exact-rational oracle "
+        "of area fxfloat",
         "String/FromString/Comma/CheckedAs belong to C04 and are not modelled here",
     ]
     ctx.lean(props=["Props.C03"], drivers=["drv_c03"])
@@ -185,15 +220,17 @@ def run(ctx):
     n0 = len(ctx.violations)
     ctx.diff(area="fxfloatm", driver="drv_c03", n={"quick": 120000, "thorough": 3000000},
              tagger=lambda l, o: "float." + (_tag(l, o) or "?"),
-             theorem="C03.f64_from_float_bound / f64_as_float_bound / f128_from_float_bound / f128_as_float_bound: the "
+             theorem="C03.f64_from_float_bound / f64_as_float_bound / f128_from_float_bound / f128_as_float_bound and the "
+                     "float32 twins f64_from_float32_bound / f64_as_float32_bound / f128_as_float32_bound: the "
                      "model of the float paths (one rounded product then truncation; nearest float64 of raw/mult; "
                      "decimal expansion rounded at D+1 and cut to D digits; 128-bit quotient then nearest float64) stays "
-                     "within max(one unit of the last place, 2^-52 relative) of the exact value on its domain; "
+                     "within max(one unit of the last place, 2^-52 relative; 2^-23 for the float32 kinds) of the exact value on its domain; "
                      "impl != model on this input",
              what="float paths of From/As inside the domain on which Go defines them (f64.From: truncated product "
                   "within int64, no NaN/Inf)", timeout=tmo)
     # f128.From on NaN / +-Inf / values beyond the raw range (panic, 0, saturation today) is outside the property too
     _demote(ctx, n0, "fxfloatm:", _float_outside, "float_outside_domain_model_drift")
+    _agreement_float(ctx, 60000 if ctx.tier == "quick" else 1000000)
     ctx.impl_oracle("fxfloat", {"quick": 60000, "thorough": 2000000},
-                    label="float From/As within max(1 unit of the last place, 2^-52 relative) of the exact value",
+                    label="float From/As within max(1 unit of the last place, 2^-52 relative; 2^-23 for float32) of the exact value",
                     timeout=tmo)
